@@ -374,10 +374,11 @@ fn("etl::copy_if<vf::idx<int>, vf::idx<int>, vf::pred3>", "etl_copy_if", [R(xrng
      XDEC]])
 
 
-def xfinder(name, alias, hit):
-    """find_if over the index iterator (called by remove_if); facts for both ghost indices"""
+def xfinder(name, alias, hit, peq=False):
+    """find_if over the index iterator (called by remove_if); facts for both ghost indices
+    (peq: state RET.base with __CPROVER_pointer_equals, needed where the contract REPLACES a call and the caller dereferences the result)"""
     fn(name, alias, [R(xrng()), R(XJ),
-       E("RET.base == OLD(first.base) && 0 <= RET.i && RET.i <= (long)vf_n"),
+       E(("__CPROVER_pointer_equals(RET.base, OLD(first.base))" if peq else "RET.base == OLD(first.base)") + " && 0 <= RET.i && RET.i <= (long)vf_n"),
        E("RET.i == (long)vf_n || %s" % hit("RET.base[RET.i]")),
        E("(%s && (long)vf_k < RET.i) ==> !%s" % (K, hit("OLD(first.base)[vf_k]"))),
        E("(vf_j < vf_n && (long)vf_j < RET.i) ==> !%s" % hit("OLD(first.base)[vf_j]")),
@@ -765,6 +766,178 @@ fold("etl::inner_product<unsigned int *, unsigned int *, unsigned int>", "etl_in
      loopvars="first1, first2, init", extra_req=[buf("first2")], f="first1", l="last1")
 fold("etl::reduce<unsigned int *, unsigned int>", "etl_reduce", lambda i, p: "%s + %s[0]" % (i, p), loop_in="etl::accumulate<unsigned int *, unsigned int, etl::plus<>>")
 fn("etl::reduce<unsigned int *>", "etl_reduce0", [R(rng()), E("vf_n == 0 ==> RET == 0"), E("vf_n == 1 ==> RET == OLD(first)[0]"), A()])
+# =====================================================================================================================
+# second wave: algorithms that had only bounded stand-ins (fam/algob); `standin=` of these groups names the algob group
+# =====================================================================================================================
+NP3 = lambda e: "(!%s)" % P3(e)
+
+# partition_copy [alg.partitions]: every element goes to out_true if pred holds, else to out_false; returns the two ends.
+# Contract: both ends (their SUM is exactly n), every element of out_true satisfies pred / none of out_false does, an element that
+# satisfies pred makes out_true non-empty (and vice versa), the FIRST input element is the first element of its output and the LAST
+# input element is the last element of its output, the source is not written.  The exact position of an inner element (the number of
+# earlier elements of the same kind) is not expressible with a ghost index: bounded stand-in algob.partition_copy.
+DT, DF = "destinationTrue", "destinationFalse"
+fn("etl::partition_copy<vf::idx<int>, vf::idx<int>, vf::idx<int>, vf::pred3>", "etl_partition_copy", [R(xrng()), R(XJ), R(xbuf(DT)), R(xbuf(DF)),
+   E("RET.first.base == OLD(%s.base) && RET.second.base == OLD(%s.base) && 0 <= RET.first.i && 0 <= RET.second.i && RET.first.i + RET.second.i == (long)vf_n" % (DT, DF)),
+   E("(long)vf_j < RET.first.i ==> %s" % P3("OLD(%s.base)[vf_j]" % DT)),
+   E("(long)vf_j < RET.second.i ==> %s" % NP3("OLD(%s.base)[vf_j]" % DF)),
+   E("(%s && %s) ==> RET.first.i >= 1" % (K, P3("OLD(first.base)[vf_k]"))),
+   E("(%s && %s) ==> RET.second.i >= 1" % (K, NP3("OLD(first.base)[vf_k]"))),
+   E("(vf_n > 0 && %s) ==> OLD(%s.base)[0] == OLD(first.base)[0]" % (P3("OLD(first.base)[0]"), DT)),
+   E("(vf_n > 0 && %s) ==> OLD(%s.base)[0] == OLD(first.base)[0]" % (NP3("OLD(first.base)[0]"), DF)),
+   E("(vf_n > 0 && %s) ==> OLD(%s.base)[RET.first.i - 1] == OLD(first.base)[vf_n - 1]" % (P3("OLD(first.base)[vf_n - 1]"), DT)),
+   E("(vf_n > 0 && %s) ==> OLD(%s.base)[RET.second.i - 1] == OLD(first.base)[vf_n - 1]" % (NP3("OLD(first.base)[vf_n - 1]"), DF)),
+   A(xupto(DT + ".base") + ", " + xupto(DF + ".base"))],
+   [[A("first.i, %s.i, %s.i, %s, %s" % (DT, DF, xupto(DT + ".base"), xupto(DF + ".base"))),
+     INV("0 <= first.i && first.i <= last.i && 0 <= %s.i && %s.i <= first.i && 0 <= %s.i && %s.i <= first.i && %s.i + %s.i == first.i" % (DT, DT, DF, DF, DT, DF)),
+     INV("(long)vf_j < %s.i ==> %s" % (DT, P3("%s.base[vf_j]" % DT))),
+     INV("(long)vf_j < %s.i ==> %s" % (DF, NP3("%s.base[vf_j]" % DF))),
+     INV("(%s && %s) ==> %s.i >= 1" % (XK_B, P3("first.base[vf_k]"), DT)),
+     INV("(%s && %s) ==> %s.i >= 1" % (XK_B, NP3("first.base[vf_k]"), DF)),
+     INV("(first.i >= 1 && %s) ==> (%s.i >= 1 && %s.base[0] == first.base[0])" % (P3("first.base[0]"), DT, DT)),
+     INV("(first.i >= 1 && %s) ==> (%s.i >= 1 && %s.base[0] == first.base[0])" % (NP3("first.base[0]"), DF, DF)),
+     INV("(first.i >= 1 && %s) ==> (%s.i >= 1 && %s.base[%s.i - 1] == first.base[first.i - 1])" % (P3("first.base[first.i - 1]"), DT, DT, DT)),
+     INV("(first.i >= 1 && %s) ==> (%s.i >= 1 && %s.base[%s.i - 1] == first.base[first.i - 1])" % (NP3("first.base[first.i - 1]"), DF, DF, DF)),
+     XDEC]])
+
+# transform_reduce [transform.reduce]: as accumulate / inner_product (see fold): safety, termination, frame, the value for lengths 0 and 1
+fold("etl::transform_reduce<unsigned int *, unsigned int *, unsigned int>", "etl_transform_reduce2", None,
+     loop_in="etl::transform_reduce<unsigned int *, unsigned int *, unsigned int, etl::plus<>, etl::multiplies<>>",
+     loopvars="first1, first2, init", extra_req=[buf("first2")], f="first1", l="last1")
+fold("etl::transform_reduce<unsigned int *, unsigned int *, unsigned int, vf::u_xor, vf::u_and>", "etl_transform_reduce2x",
+     lambda i, p: "(%s ^ (%s[0] & %s[0]))" % (i, p, p.replace("first1", "first2")),
+     loopvars="first1, first2, init", extra_req=[buf("first2")], f="first1", l="last1")
+fold("etl::transform_reduce<unsigned int *, unsigned int, etl::plus<>, vf::u_triple>", "etl_transform_reduce1",
+     lambda i, p: "(%s + %s[0] * 3u)" % (i, p))
+
+# copy, parameter-relative (source vf::idx<const int>): copies first.base[first.i .. last.i) to destination.base[destination.i ..);
+# no overlap.  This is the contract the callers below are checked against (replace=etl_copy_c); group copy_c proves it.
+CNT = "(last.i - first.i)"
+OCNT = "(OLD(last.i) - OLD(first.i))"
+fn("etl::copy<vf::idx<const int>, vf::idx<int>>", "etl_copy_c", [
+   R("vf_k <= %s && 0 <= first.i && first.i <= last.i && last.i <= %s && 0 <= destination.i && destination.i <= %s" % (NMAXW, NMAXW, NMAXW)),
+   R("FRESH(first.base, last.i * %s) && __CPROVER_pointer_equals(last.base, first.base) && FRESH(destination.base, (destination.i + %s) * %s)" % (I, CNT, I)),
+   E("__CPROVER_pointer_equals(RET.base, OLD(destination.base)) && RET.i == OLD(destination.i) + %s" % OCNT),
+   E("(long)vf_k < %s ==> OLD(destination.base)[OLD(destination.i) + (long)vf_k] == OLD(first.base)[OLD(first.i) + (long)vf_k]" % OCNT),
+   A("__CPROVER_object_upto(destination.base + destination.i, %s * %s)" % (CNT, I))],
+   [[A("first.i, destination.i, __CPROVER_object_upto(destination.base + destination.i, %s * %s)" % (CNT, I)),
+     INV("ENTRY(first.i) <= first.i && first.i <= last.i && ENTRY(destination.i) <= destination.i && destination.i <= ENTRY(destination.i) + last.i && destination.i - first.i == ENTRY(destination.i) - ENTRY(first.i)"),
+     INV("(long)vf_k < first.i - ENTRY(first.i) ==> destination.base[ENTRY(destination.i) + (long)vf_k] == first.base[ENTRY(first.i) + (long)vf_k]"),
+     XDEC]])
+
+# rotate_copy [alg.rotate]: result[k] == first[(k + (middle - first)) mod n], returns result + n; two calls of copy (replaced by etl_copy_c).
+# vf_n = length, vf_m = middle - first.  The two ENSURES (same ghost index vf_k, once for each part) are the whole element-wise clause.
+fn("etl::rotate_copy<vf::idx<const int>, vf::idx<int>>", "etl_rotate_copy", [
+   R("vf_k <= vf_n && vf_n <= %s && vf_m <= vf_n && FRESH(first.base, vf_n * %s) && first.i == 0 && __CPROVER_pointer_equals(nFirst.base, first.base) && nFirst.i == (long)vf_m && __CPROVER_pointer_equals(last.base, first.base) && last.i == (long)vf_n" % (NMAXW, I)),
+   R(xbuf("destination")),
+   E(xat("RET", "OLD(destination.base)", "vf_n")),
+   E("vf_k < vf_n - vf_m ==> OLD(destination.base)[vf_k] == OLD(first.base)[vf_m + vf_k]"),
+   E("vf_k < vf_m ==> OLD(destination.base)[vf_n - vf_m + vf_k] == OLD(first.base)[vf_k]"),
+   A(xupto("destination.base"))])
+
+# shift_left [alg.shift]: n <= 0 (the standard requires n >= 0; tetl documents n < 0 as "does nothing") or n >= last - first: no effects,
+# returns last resp. first; otherwise element first+n+i moves to first+i, returns first + (last - first - n).  Range length = vf_m + vf_n,
+# shift n == vf_m in the moving case.  Random-access path: one call of move (replaced by etl_move, overlap configuration vf_ov == 1).
+NN = "(vf_m + vf_n)"
+SH_RNG = "vf_k <= vf_n && vf_j <= %s && vf_n <= %s && vf_m <= %s && FRESH(first.base, %s * %s) && first.i == 0 && __CPROVER_pointer_equals(last.base, first.base) && last.i == (long)%s" % (NN, NMAXW, NMAXW, NN, I, NN)
+fn("etl::shift_left<vf::idx<int>>", "etl_shift_left", [R(SH_RNG),
+   R("n <= 0 || n >= (long)%s || n == (long)vf_m" % NN),
+   E("RET.base == OLD(first.base) && RET.i == (OLD(n) <= 0 ? (long)%s : OLD(n) >= (long)%s ? 0 : (long)vf_n)" % (NN, NN)),
+   E("((OLD(n) <= 0 || OLD(n) >= (long)%s) && vf_j < %s) ==> OLD(first.base)[vf_j] == OLD(first.base[vf_j])" % (NN, NN)),
+   E("(OLD(n) > 0 && OLD(n) < (long)%s && %s) ==> OLD(first.base)[vf_k] == OLD(first.base[vf_m + vf_k])" % (NN, K)),
+   A(xupto("first.base"))])
+
+# shift_right [alg.shift]: n == 0 or n >= last - first: no effects, returns first (== first + n) resp. last; otherwise element first+i moves
+# to first+n+i for i < (last - first) - n, returns first + n.  (n < 0: outside the standard's precondition, not part of the contract.)
+fn("etl::shift_right<vf::idx<int>>", "etl_shift_right", [R(SH_RNG),
+   R("n == 0 || n >= (long)%s || n == (long)vf_m" % NN),
+   E("RET.base == OLD(first.base) && RET.i == (OLD(n) >= (long)%s && OLD(n) > 0 ? (long)%s : OLD(n))" % (NN, NN)),
+   E("((OLD(n) == 0 || OLD(n) >= (long)%s) && vf_j < %s) ==> OLD(first.base)[vf_j] == OLD(first.base[vf_j])" % (NN, NN)),
+   E("(OLD(n) > 0 && OLD(n) < (long)%s && %s) ==> OLD(first.base)[vf_m + vf_k] == OLD(first.base[vf_k])" % (NN, K)),
+   A(xupto("first.base", NN))],
+   [[A("dest.i, src.i, " + xupto("first.base", NN)),
+     INV("first.i == 0 && n == (long)vf_m && 0 <= src.i && src.i <= (long)vf_n && dest.i == src.i + (long)vf_m && dest.base == first.base && src.base == first.base"),
+     INV("(%s && (long)vf_k >= src.i) ==> first.base[vf_m + vf_k] == ENTRY(first.base[vf_k])" % K),
+     INV("(%s && (long)vf_k < src.i) ==> first.base[vf_k] == ENTRY(first.base[vf_k])" % K),
+     DEC("src.i")],
+    [A("dest.i, " + xupto("first.base", "vf_m")),
+     INV("first.i == 0 && 0 <= dest.i && dest.i <= (long)vf_m && dest.base == first.base"),
+     DEC("dest.i")]])
+
+# partition [alg.partitions]: returns i such that pred holds on [first, i) and on no element of [i, last); permutes.
+# Contract: i in range, pred holds on every element before i (ghost index), an element satisfying pred makes i > first, one that does not
+# makes i < last, nothing outside the range is written.  NOT in the contract: "no element of [i, last) satisfies pred" -- its loop invariant
+# (pred fails on [first, i) of the loop) needs, at every swap, the instance at the moving index `first`, i.e. a genuinely quantified
+# invariant; it and the permutation clause stay in the bounded stand-in algob.partition.
+xfinder("etl::find_if_not<vf::idx<int>, vf::pred3>", "etl_find_if_not_x", NP3, peq=True)
+fn("etl::partition<vf::idx<int>, vf::pred3>", "etl_partition", [R(xrng()), R(XJ),
+   E("RET.base == OLD(first.base) && 0 <= RET.i && RET.i <= (long)vf_n"),
+   E("(%s && (long)vf_k < RET.i) ==> %s" % (K, P3("OLD(first.base)[vf_k]"))),
+   E("(%s && %s) ==> RET.i >= 1" % (K, P3("OLD(first.base[vf_k])"))),
+   E("(%s && %s) ==> RET.i <= (long)vf_n - 1" % (K, NP3("OLD(first.base[vf_k])"))),
+   A(xupto("first.base"))],
+   [[A("first.i, i.i, " + xupto("first.base")),
+     INV("0 <= first.i && first.i < i.i && i.i <= last.i && last.i == (long)vf_n && i.base == first.base"),
+     INV("(%s && (long)vf_k < first.i) ==> %s" % (K, P3("first.base[vf_k]"))),
+     INV("(%s && (long)vf_k >= i.i) ==> first.base[vf_k] == ENTRY(first.base[vf_k])" % K),
+     INV("(%s && (long)vf_k < i.i && %s) ==> first.i >= 1" % (K, P3("ENTRY(first.base[vf_k])"))),
+     DEC("last.i - i.i")]])
+
+# search_n [alg.search]: the first i such that the count elements from i on equal value; first if count <= 0; last if there is none.
+# Contract: result in range; count <= 0 -> first; a result != last starts count elements (ghost vf_j) equal to value, lies at least count
+# before last and is not preceded by an equal element (else result - 1 would be an earlier match); count > n -> last; for count == 1
+# no element before the result equals value.  NOT in the contract: minimality for count >= 2 ("every earlier window contains a
+# different element" is an existential statement per window): bounded stand-in algob.search_n.
+SV = "*value"
+fn("etl::search_n<int *, long, int>", "etl_search_n", [R("FRESH(value, sizeof(int))"), R(rng()),
+   E(inr("RET", OF)),
+   E("OLD(count) <= 0 ==> RET == OLD(first)"),
+   E("(OLD(count) > 0 && RET != OLD(last)) ==> (OFF(RET) + OLD(count) * %s <= OFF(OLD(last)) && ((long)vf_j < OLD(count) ==> RET[vf_j] == %s))" % (I, SV)),
+   E("(OLD(count) > 0 && RET != OLD(last) && RET != OLD(first)) ==> RET[-1] != %s" % SV),
+   E("OLD(count) > (long)vf_n ==> RET == OLD(last)"),
+   E("(OLD(count) == 1 && %s && %s) ==> OLD(first)[vf_k] != %s" % (K, before("vf_k", "RET", OF), SV)),
+   A()])
+fn("etl::search_n<int *, long, int, etl::equal_to<>>", "etl_search_n_pred", [],
+   [[A("first, found, localCounter"), INV(linv()),
+     INV("0 <= localCounter && localCounter < count && localCounter <= (long)%s" % idx("first", EF)),
+     INV("localCounter > 0 ==> (SAME(found, first) && OFF(found) + localCounter * %s == OFF(first))" % I),
+     INV("(localCounter > 0 && (long)vf_j < localCounter) ==> found[vf_j] == %s" % SV),
+     INV("(localCounter > 0 && found != %s) ==> found[-1] != %s" % (EF, SV)),
+     INV("(localCounter == 0 && first != %s) ==> first[-1] != %s" % (EF, SV)),
+     INV("(count == 1 && %s) ==> %s[vf_k] != %s" % (KB, EF, SV)),
+     DECR]])
+
+# find_first_of [alg.find.first.of]: the first i in [first, last) such that *i == *j for some j in [s_first, s_last); last if none.
+# Contract (both loops under loop contracts): result in range; no element before the result equals any needle element (ghosts vf_k, vf_p);
+# an empty needle gives last; "the result equals SOME needle element" is existential: written out for needles of up to 3 elements.
+fn("etl::find_first_of<int *, int *>", "etl_find_first_of", [R(rng()), R(rng("sFirst", "sLast", "vf_m")), R("vf_p <= vf_m"),
+   E(inr("RET", OF)),
+   E("(%s && %s && vf_p < vf_m) ==> OLD(first)[vf_k] != OLD(sFirst)[vf_p]" % (K, before("vf_k", "RET", OF))),
+   E("vf_m == 0 ==> RET == OLD(last)"),
+   E("(RET != OLD(last) && vf_m <= 3) ==> ((vf_m >= 1 && *RET == OLD(sFirst)[0]) || (vf_m >= 2 && *RET == OLD(sFirst)[1]) || (vf_m >= 3 && *RET == OLD(sFirst)[2]))"),
+   A()])
+fn("etl::find_first_of<int *, int *, etl::equal_to<>>", "etl_find_first_of_pred", [],
+   [[A("first"), INV(linv()),
+     INV("(%s && vf_p < vf_m) ==> %s[vf_k] != sFirst[vf_p]" % (KB, EF)),
+     DECR],
+    [A("it"), INV(linv("it", "sLast")), INV("ENTRY(it) == sFirst"),
+     INV("(vf_p < vf_m && sFirst + vf_p < it) ==> *first != sFirst[vf_p]"),
+     DEC("OFF(sLast) - OFF(it)")]])
+
+# includes [includes]: true iff every element of the sorted range 2 is contained in the sorted range 1 (as a sub-multiset).
+# "Contained" is existential and its negation universal over range 1: the contract states the decidable cases (empty range 2 -> true;
+# range 2 longer than range 1 -> false; the first element of range 2 is less than the first of range 1 -> false; one element each ->
+# equivalence of the two), safety, termination and the frame; the bounded stand-in algob.includes states the full result.
+fn("etl::includes<int *, int *>", "etl_includes", [R(rng("first1", "last1")), R(rng("first2", "last2", "vf_m")),
+   E("vf_m == 0 ==> RET"), E("vf_m > vf_n ==> !RET"),
+   E("(vf_n > 0 && vf_m > 0 && OLD(first2)[0] < OLD(first1)[0]) ==> !RET"),
+   E("(vf_n == 1 && vf_m == 1) ==> RET == (!(OLD(first1)[0] < OLD(first2)[0]) && !(OLD(first2)[0] < OLD(first1)[0]))"),
+   A()])
+fn("etl::includes<int *, int *, etl::less<>>", "etl_includes_pred", [],
+   [[A("first1, first2"), INV(linv("first1", "last1")), INV(linv("first2", "last2")),
+     INV("OFF(first2) - OFF(ENTRY(first2)) <= OFF(first1) - OFF(ENTRY(first1))"),
+     INV("OFF(first1) == OFF(ENTRY(first1)) + %s ==> (first2 == ENTRY(first2) ? ENTRY(first1)[0] < ENTRY(first2)[0] : (!(ENTRY(first1)[0] < ENTRY(first2)[0]) && !(ENTRY(first2)[0] < ENTRY(first1)[0])))" % I),
+     DEC("OFF(last1) - OFF(first1)")]])
 # ===== END CONTRACTS =====
 
 hdr = ["# generated by fam/algo/mkspec.py -- edit that file and re-run it",
